@@ -21,7 +21,10 @@ var c07Vals = []string{"1", "2", "x", "", " -1 "}
 
 func numOperands() []gen.Expr {
 	return []gen.Expr{gen.N(0), gen.N(1), gen.N(2), &gen.Neg{E: gen.N(1)}, &gen.Num{V: 0.5, Lit: "0.5"},
-		gen.B("div", gen.N(1), gen.N(0)), gen.B("div", gen.N(0), gen.N(0))}
+		gen.B("div", gen.N(1), gen.N(0)), gen.B("div", gen.N(0), gen.N(0)),
+		// doubles a few ulps apart compare as different numbers
+		gen.B("+", &gen.Num{V: 0.1, Lit: "0.1"}, &gen.Num{V: 0.2, Lit: "0.2"}), &gen.Num{V: 0.3, Lit: "0.3"}, &gen.Num{V: 1.0000000000000002, Lit: "1.0000000000000002"},
+		&gen.Num{V: 9007199254740993, Lit: "9007199254740993"}, &gen.Num{V: 9007199254740992, Lit: "9007199254740992"}}
 }
 
 func strOperands() []gen.Expr {
